@@ -503,6 +503,10 @@ Proof. intros H. apply plane_rescale_inv in H as (_ & _ & Hm & _). split.
       rewrite (mask_arr_spec _ _ _ Hu). reflexivity.
 Qed.
 
+Lemma known_b2q_true (b : bool) : Known (if b then 1 else Q2Qc 0) = Known 1 -> b = true.
+Proof. destruct b; [reflexivity|]. intros H.
+  apply (f_equal (fun x => match x with Known v => v | _ => 1 end)) in H. symmetry in H. destruct (Qcanon.Q_apart_0_1 H). Qed.
+
 (* segments that do not overlap before do not overlap after *)
 Theorem segments_stay_disjoint a b s a' b' :
   util_rescale Nearest0 a s = Ok a' -> util_rescale Nearest0 b s = Ok b' ->
@@ -513,13 +517,11 @@ Proof. intros Ha Hb En Em Hd i j [H1 H2].
   rewrite (mask_arr_spec _ _ _ Ha) in H1. rewrite (mask_arr_spec _ _ _ Hb) in H2.
   apply util_rescale_ok in Ha as (_ & Ha1 & Ha2 & _). apply util_rescale_ok in Hb as (_ & Hb1 & Hb2 & _).
   unfold nn_mask in *. rewrite Hb1, Hb2, <- En, <- Em, <- Ha1, <- Ha2 in H2.
-  set (y := coord _ _ _ _) in *. set (x := coord _ _ _ _) in *.
+  set (y := coord (qnr a) (onr a') s i) in *. set (x := coord (qnc a) (onc a') s j) in *.
   specialize (Hd (rnd y) (rnd x)).
-  destruct (in_closed (qnr a) y && in_closed (qnc a) x); cbn [andb] in *.
-  - destruct (nz (qget a _ _)), (nz (qget b _ _)); cbn in *; try discriminate;
-      try (injection H1 as H1; revert H1; exact Qcanon.Q_apart_0_1 || (intros H1; symmetry in H1; revert H1; exact Qcanon.Q_apart_0_1));
-      try (injection H2 as H2; symmetry in H2; revert H2; exact Qcanon.Q_apart_0_1).
-  - injection H1 as H1. symmetry in H1. revert H1. exact Qcanon.Q_apart_0_1.
+  apply known_b2q_true in H1. apply known_b2q_true in H2.
+  apply andb_prop in H1 as [_ H1]. apply andb_prop in H2 as [_ H2].
+  rewrite H1, H2 in Hd. discriminate.
 Qed.
 
 (* the finding: an integer (or bool) mask, e.g. the mask of every rescaled plane, is refused *)
@@ -532,3 +534,28 @@ Theorem integer_dtype_refused P s a :
   p_amp P = FScalar 1 -> p_opd P = FScalar (Q2Qc 0) -> p_mask P = MMono a -> qint a = true ->
   plane_rescale P s = Err ValueError.
 Proof. intros Ea Eo Em Ei. unfold plane_rescale. rewrite Ea, Eo, Em. cbn. unfold util_rescale. rewrite Ei. reflexivity. Qed.
+
+Lemma integer_mask_refuted :
+  (forall (P : plane) (s : Qc) (a : qarr),
+     p_amp P = FScalar 1 -> p_opd P = FScalar (Q2Qc 0) -> p_mask P = MMono a -> qint a = true ->
+     plane_rescale P s = Err ValueError) /\
+  plane_rescale (mkPlane (FScalar 1) (FScalar (Q2Qc 0)) (MMono (mkQ 2 2 (fun _ _ => 1) true)) (Some (1, 1))) (zq 2)
+    = Err ValueError.
+Proof. split; [exact integer_dtype_refused|reflexivity]. Qed.
+
+Lemma ceil_spec n s :
+  zq n * s <= zq (rescale_shape n s) /\ zq (rescale_shape n s) < zq n * s + 1 /\
+  (forall c : Z, zq n * s <= zq c -> zq c < zq n * s + 1 -> rescale_shape n s = c) /\
+  ((0 < n)%Z -> 0 < s -> (0 < rescale_shape n s)%Z).
+Proof. repeat split; [apply qceil_ge|apply qceil_lt|intros c; apply qceil_unique|apply rescale_shape_pos]. Qed.
+
+Lemma nonvacuous :
+  let a := mkQ 2 4 (fun i j => zq (1 + i + 2 * j)) false in
+  let P := mkPlane (FArr a) (FScalar (Q2Qc 0)) (MMono a) (Some (1, 1)) in
+  exists P' a' m', plane_rescale P (zq 3 / zq 2) = Ok P' /\ o_amp P' = OArr a' /\ o_mask P' = OMono m' /\
+    onr a' = 3%Z /\ onc a' = 6%Z /\ o_ps P' = Some (zq 2 / zq 3, zq 2 / zq 3) /\
+    oget a' 0 0 = Known (zq 1 / (zq 3 / zq 2)) /\ oget a' 0 3 = Known (zq 5 / (zq 3 / zq 2)) /\
+    oget a' 1 1 = Unknown /\ oget m' 1 1 = Known 1.
+Proof. cbv zeta. eexists; eexists; eexists. split; [reflexivity|]. split; [reflexivity|]. split; [reflexivity|].
+  repeat split; apply f_equal || idtac; try (vm_compute; reflexivity).
+Qed.
